@@ -396,6 +396,37 @@ func c17(r *ev.Run) {
 			}
 		}
 	}
+	// every 7-bit byte value substituted at every position of well-formed texts (a digit test that folds or masks
+	// bytes accepts a foreign one somewhere): hex helpers, the five hex fields, the decimal helpers
+	for _, base := range []string{"132d0b6", "0132D0B6", "aF", "7"} {
+		for i := 0; i < len(base); i++ {
+			for v := 0; v < 128; v++ {
+				t := base[:i] + string(rune(v)) + base[i+1:]
+				if t == base {
+					continue
+				}
+				cases = append(cases, c17Case{Helper: "ParseHexTimestamp", Args: []string{t}}, c17Case{Helper: "LeftPadHex", Args: []string{t}, N: 16}, c17Case{Helper: "MustHexPadLeft", Args: []string{t}, N: 8})
+				if len(base) == 8 {
+					for f := 0; f < 5; f++ {
+						args := []string{"0000000000000001", "3132333435363738", "7110eda4d09e062aa5e4a390b0a572ac0d2c0220", "abcdef", "000000000132d0b6"}
+						args[f] = t + t
+						cases = append(cases, c17Case{Helper: "HexInputToOCRA", Args: args})
+					}
+				}
+			}
+		}
+	}
+	for _, base := range []string{"12345", "90", "18446744073709551615"} {
+		for i := 0; i < len(base); i++ {
+			for v := 0; v < 128; v++ {
+				t := base[:i] + string(rune(v)) + base[i+1:]
+				if t == base {
+					continue
+				}
+				cases = append(cases, c17Case{Helper: "ParseDecimalToBigEndian8", Args: []string{t}}, c17Case{Helper: "ParseDecimal64BigEndian", Args: []string{t}}, c17Case{Helper: "ParseDecimalChallengeRFC6287", Args: []string{t}})
+			}
+		}
+	}
 	// HexInputToOCRA: all 3^5 combinations of {valid, invalid, empty} x two contents
 	valid := [][]string{{"0000000000000001", "FFfFffFFFFffFFFF"}, {"3132333435363738", "a98ac7"}, {"7110eda4d09e062aa5e4a390b0a572ac0d2c0220", "00"}, {"abcdef", "00112233445566778899"}, {"000000000132d0b6", "ff"}}
 	invalid := []string{"0", "zz", "abc", "0x12", "12 "}
